@@ -83,6 +83,7 @@ type Sched struct {
 	MaxIdle        int
 	Verbose        bool
 	Deadlock       bool
+	Livelock       bool // the step horizon was reached with threads still enabled (a loop that never quiesces)
 	Diverged       string
 	StepHook       func() // called by the controller after every quiescence (all threads parked)
 	fails          []Failure
@@ -392,8 +393,24 @@ func (s *Sched) Run() {
 		over := s.steps > s.MaxSteps
 		s.mu.Unlock()
 		if over {
-			if s.Diverged == "" {
-				s.Diverged = "step horizon exceeded"
+			// The code under test keeps producing scheduling points (a retry loop that never quiesces). That is
+			// a verdict about the code, not a replay problem: report it as a livelock, stop scheduling (phase 2
+			// makes every later point pass through) and let the parked threads run on as ordinary goroutines so
+			// that the bubble can drain.
+			s.Livelock = true
+			atomic.StoreInt32(&s.phase, 2)
+			s.mu.Lock()
+			var parked []*thread
+			for _, o := range s.threads {
+				if o.parked && !o.done {
+					o.parked = false
+					parked = append(parked, o)
+				}
+			}
+			s.mu.Unlock()
+			t.wake <- struct{}{} // the thread just chosen is no longer marked parked: release it as well
+			for _, o := range parked {
+				o.wake <- struct{}{}
 			}
 			return
 		}
